@@ -51,5 +51,17 @@ shutil.rmtree(am.SCRATCH, ignore_errors=True)
 if not pat:
     with open('/verif/seeded/RESULTS.tsv', 'w') as f:
         for r in rows: f.write('\t'.join(str(x) for x in r) + '\n')
+else:
+    # a partial re-run replaces the rows of the seeds it covered
+    old = {}
+    try:
+        for l in open('/verif/seeded/RESULTS.tsv'):
+            f_ = l.rstrip('\n').split('\t')
+            if f_ and f_[0]: old[f_[0]] = f_
+    except FileNotFoundError:
+        pass
+    for r in rows: old[r[0]] = [str(x) for x in r]
+    with open('/verif/seeded/RESULTS.tsv', 'w') as f:
+        for k in sorted(old): f.write('\t'.join(old[k]) + '\n')
 bad = [r for r in rows if not (r[2] == 'exit=1' and r[4] == 'replay_exit=1') and (len(r) < 6 or r[5] != 'out-of-scope')]
 print('%d seeds, %d not caught: %s' % (len(rows), len(bad), [r[0] for r in bad]))
